@@ -1,0 +1,41 @@
+// Licensed to Elasticsearch B.V. under one or more contributor
+// license agreements. See the NOTICE file distributed with
+// this work for additional information regarding copyright
+// ownership. Elasticsearch B.V. licenses this file to you under
+// the Apache License, Version 2.0 (the "License"); you may
+// not use this file except in compliance with the License.
+// You may obtain a copy of the License at
+//
+//     http://www.apache.org/licenses/LICENSE-2.0
+//
+// Unless required by applicable law or agreed to in writing,
+// software distributed under the License is distributed on an
+// "AS IS" BASIS, WITHOUT WARRANTIES OR CONDITIONS OF ANY
+// KIND, either express or implied.  See the License for the
+// specific language governing permissions and limitations
+// under the License.
+//go:build verif
+// +build verif
+
+package seccomp
+
+import (
+	"encoding/binary"
+
+	"github.com/elastic/go-seccomp-bpf/arch"
+)
+
+// VerifSetArch selects the architecture a policy is assembled for. It only
+// exists in builds with the verif tag (verification harness).
+func VerifSetArch(p *Policy, a *arch.Info) {
+	p.arch = a
+}
+
+// VerifSetNativeEndian selects the byte order that is assumed for the
+// seccomp_data record and returns the previous one. It only exists in builds
+// with the verif tag (verification harness).
+func VerifSetNativeEndian(order binary.ByteOrder) binary.ByteOrder {
+	previous := nativeEndian
+	nativeEndian = order
+	return previous
+}
